@@ -251,6 +251,17 @@ unsafe fn run_call(ctx: *mut ChewingContext, call: &str) {
                     }
                 }
             }
+            "uep" => {
+                // start an enumeration and leave it pending (one has_next, one get): later `ug` calls read it after
+                // whatever happened to the user dictionary in between (F22: the iterator must own a snapshot)
+                chewing_userphrase_enumerate(ctx);
+                let (mut pl, mut bl): (c_uint, c_uint) = (0, 0);
+                if chewing_userphrase_has_next(ctx, &mut pl, &mut bl) == 1 {
+                    let mut pbuf = vec![0u8; pl as usize + 1];
+                    let mut bbuf = vec![0u8; bl as usize + 1];
+                    chewing_userphrase_get(ctx, pbuf.as_mut_ptr().cast(), pl, bbuf.as_mut_ptr().cast(), bl);
+                }
+            }
             "reset" => {
                 chewing_Reset(ctx);
             }
@@ -297,6 +308,20 @@ unsafe fn run_call(ctx: *mut ChewingContext, call: &str) {
             }
             "nolog" => {
                 chewing_set_logger(ctx, None, std::ptr::null_mut());
+            }
+            "kbt" => {
+                // keyboard-type enumeration read n times without asking hasNext (far past its end), both getter variants
+                chewing_kbtype_Enumerate(ctx);
+                for i in 0..int(1).clamp(0, 2000) {
+                    if i % 3 == 2 {
+                        chewing_kbtype_hasNext(ctx);
+                    }
+                    if i % 2 == 0 {
+                        free_s(chewing_kbtype_String(ctx));
+                    } else {
+                        chewing_kbtype_String_static(ctx);
+                    }
+                }
             }
             "sbi" => {
                 // cand_string_by_index(_static) with an arbitrary index
@@ -748,6 +773,7 @@ fn gen_user(rng: &mut Rng, calls: &mut Vec<String>) {
             let bad = *rng.pick(&["", "ㄘ ㄘ ㄘ", "abc", "ㄘㄜˋ ㄕˋ ㄘㄜˋ ㄕˋ ㄘㄜˋ ㄕˋ ㄘㄜˋ ㄕˋ ㄘㄜˋ ㄕˋ ㄘㄜˋ ㄕˋ", "ˋ", "ㄘㄘ"]);
             calls.push(format!("ua {} {}", hx(*rng.pick(&["", "測", "測試", "abc"])), hx(bad)));
         }
+        8 => calls.push("uep".into()),
         _ => calls.push(format!("ua {} {}", hx(p), hx(b))),
     }
 }
@@ -801,6 +827,7 @@ fn gen_history(rng: &mut Rng, n_calls: usize) -> String {
                 }
                 3 => calls.push("nolog".into()),
                 4 => calls.push("ug".into()),
+                5 => calls.push(format!("kbt {}", rng.pick(&[0i64, 5, 17, 18, 40, 255, 256, 257, 300, 600]))),
                 _ => calls.push(rng.pick(&["reset", "ack", "commit", "cleanpre", "cleanbopo", "ack"]).to_string()),
             },
             9 => {
@@ -1150,6 +1177,11 @@ fn directed() -> Vec<(&'static str, bool, String)> {
         ("F06-fixed", false, format!("testdata | ua {} {} ; ue -1 1 ; ue 0 0 ; ue 1 -1 ; ue -2 -2 ; ue -3 3", ws, bs)),
         ("F40-fixed", false, "testdata | d 104 ; d 107 ; d 52 ; d 65 ; ci chewing.auto_commit_threshold 0 ; k down ; cx 9 ; d 52".into()),
         // F41: simple engine, single-word list, chewing_cand_list_first extended the range over the following symbol
+        // F22 (C15): a pending user-phrase enumeration read after the user dictionary changed (learning keys, add, remove)
+        ("F22-fixed", false, format!("testdata | ua {} {} ; ua {} {} ; uep ; d 104 ; d 107 ; d 52 ; d 103 ; d 52 ; k enter ; ug ; ur {} {} ; ug ; ug ; uep ; ua {} {} ; ug", ws, bs, wo, bo, ws, bs, ws, bs)),
+        // F42: chewing_kbtype_String[_static] called ~256 times after one chewing_kbtype_Enumerate overflowed the u8 counter
+        ("F42-fixed", false, "builtin | kbt 300".into()),
+        ("F42-fixed", false, "testdata | kbt 17 ; kbt 257 ; kbt 600".into()),
         ("F41-fixed", false, "testdata | d 104 ; d 107 ; d 52 ; d 33 ; k home ; k del ; ci chewing.conversion_engine 0 ; d 104 ; d 107 ; d 52 ; cf ; cx 0 ; ci chewing.conversion_engine 1 ; k enter".into()),
         ("F41-fixed", false, "testdata | d 104 ; d 107 ; d 52 ; d 33 ; k home ; k del ; ci chewing.conversion_engine 0 ; d 104 ; d 107 ; d 52 ; cf ; cf ; cl ; cx 0 ; ci chewing.conversion_engine 2 ; k enter".into()),
     ]
